@@ -36,7 +36,7 @@ STRENGTHENED = {
     'C02-m22', 'C05-m20', 'C05-m21', 'C05-m22', 'C06-m22', 'C07-m21', 'C07-m22', 'C09-m20', 'C09-m22', 'C10-m21',
     'C11-m22', 'C14-m21', 'C17-m20', 'C18-m22', 'C20-m20', 'C20-m21',
     # wave 8 (C05-m24: strengthened from the author's report before the first evaluation)
-    'C01-m24', 'C04-m25', 'C05-m24', 'C11-m23', 'C16-m25', 'C18-m25', 'C20-m23', 'C20-m25'}
+    'C01-m24', 'C04-m25', 'C05-m24', 'C06-m25', 'C11-m23', 'C16-m25', 'C18-m25', 'C20-m23', 'C20-m25'}
 
 
 def title(notes):
